@@ -23,7 +23,7 @@ LEVEL_TEXT = (
     "M M^T = joint smoothing covariance (rebuilt from the returned backward factorisation in 50 digits; for priors: the exact IWP joint "
     "law); every draw label is used exactly once (no key reuse, also across batched samples); sample shapes are prepended."
 )
-LEVEL_NOTE = "Trusted: harness-side patching of probdiffeq.backend.random.{split,normal}; jax.jacfwd of an affine map; mpmath recomposition of the joint law."
+LEVEL_NOTE = "Trusted: harness-side patching of probdiffeq.backend.random.{split,normal} (64-bit hashed labels: any split width is supported); jax.jacfwd of an affine map; mpmath recomposition of the joint law. Gram comparison entrywise at max(1e-6, 64 eps x sum of |terms| of the backward chain), entries whose bound exceeds 1e-3 are not compared (counted)."
 RULE = (
     "case = (source smoother-posterior|prior-on-grid, structure from a seeded pool, problem values, sample shape); non-trivial = >= 3 output "
     "times with a non-zero backward offset and a non-unit preconditioner; distinct by JSON hash"
